@@ -49,7 +49,9 @@ def score_consistency(ctx, tag, call, s1, x, inp, retag=None):
         s = float(s)
         g = np.asarray(g, float)
     except Exception as e:  # noqa
-        ctx.spec(retag or tag + '.succeeds_where_finite', not math.isfinite(v), inp,
+        # "succeeds wherever plain evaluation yields a finite score, and REPORTS a non-finite score wherever
+        # plain evaluation does": an exception is neither
+        ctx.spec(retag or tag + ('.succeeds_where_finite' if math.isfinite(v) else '.nonfinite_reported'), False, inp,
                  {'call': v, 'evaluateS1_raised': repr(e)[:200]})
         return v, None, None
     if math.isfinite(v):
@@ -126,13 +128,33 @@ def loglik_case(ctx, chi, rng, i):
         with np.errstate(all='ignore'):
             s, g = ll.evaluateS1(x)
     except Exception as e:  # noqa
-        ctx.spec(TAG22 if all_mech_fixed else 'C03.LogLikelihood.succeeds_where_finite',
-                 not math.isfinite(v), inp, {'raised': repr(e)[:200]})
+        ctx.spec(TAG22 if all_mech_fixed else ('C03.LogLikelihood.succeeds_where_finite' if math.isfinite(v)
+                                               else 'C03.LogLikelihood.nonfinite_reported'),
+                 False, inp, {'call': v, 'raised': repr(e)[:200]})
         return
     v, s, g = score_consistency(ctx, 'C03.LogLikelihood', ll, ll.evaluateS1, x, inp)
     if g is None or not math.isfinite(v):
         return
     fd_all(ctx, ll, x, g, 'C03.LogLikelihood.gradient_is_derivative', inp)
+    if fixed and len(fixed) < len(names) and not boundary:
+        # the set of fixed parameters changes in ONE call (one released, another fixed) after sensitivities
+        # were computed: the gradient is the one of the new configuration
+        old_n = sorted(fixed)[int(rng.integers(len(fixed)))]
+        new_n = [n for n in names if n not in fixed][int(rng.integers(len(names) - len(fixed)))]
+        fixed2 = dict(fixed)
+        del fixed2[old_n]
+        fixed2[new_n] = float(x_full[names.index(new_n)])
+        ll.fix_parameters({old_n: None, new_n: fixed2[new_n]})
+        free2 = np.array([n not in fixed2 for n in names])
+        x2 = x_full[free2]
+        inp2 = dict(inp, fixed=fixed2, x=x2, fixed_before=fixed)
+        if any(n in fixed2 for n in names[:n_mech]) and all(n in fixed2 for n in names[:n_mech]):
+            pass        # (every mechanistic parameter fixed: TAG22 covers that configuration)
+        else:
+            v2, s2, g2 = score_consistency(ctx, 'C03.LogLikelihood', ll, ll.evaluateS1, x2, inp2)
+            if g2 is not None and math.isfinite(v2):
+                fd_all(ctx, ll, x2, g2, 'C03.LogLikelihood.gradient_is_derivative', inp2)
+        ll.fix_parameters({new_n: None, old_n: fixed[old_n]})
     whole_numbers(ctx, 'C03.LogLikelihood', ll, x, inp)
     held_and_arguments(ctx, 'C03.LogLikelihood', ll, x, inp)
     if i % 3 == 1:
@@ -202,7 +224,7 @@ def hier_case(ctx, chi, rng, i, subs=None, n_ids=None):
     free = np.array([n not in fixed for n in names_top])
     boundary = rng.random() < 0.06 and len(top) > 0
     if boundary:
-        top[int(rng.integers(len(top)))] = 0.0
+        top[int(rng.integers(len(top)))] = float(rng.choice([0.0, -0.6]))
     hll = chi.HierarchicalLogLikelihood(lls, pm, covariates=cov)
     nH = sum(nd for c, nd, _, _ in subs if c not in (5, 6))
     bottom = rng.uniform(0.5, 1.5, n_ids * nH)
@@ -223,7 +245,8 @@ def hier_case(ctx, chi, rng, i, subs=None, n_ids=None):
         with np.errstate(all='ignore'):
             s, g = hll.evaluateS1(x)
     except Exception as e:  # noqa
-        ctx.spec(TAG3 if cov_pooled else 'C03.Hierarchical.succeeds_where_finite', not math.isfinite(v), inp,
+        ctx.spec(TAG3 if cov_pooled else ('C03.Hierarchical.succeeds_where_finite' if math.isfinite(v)
+                                          else 'C03.Hierarchical.nonfinite_reported'), False, inp,
                  {'call': v, 'raised': repr(e)[:200]})
         return
     rt = TAG3 if cov_pooled else None
